@@ -41,8 +41,11 @@
 (* put, calls on a closed device object and the fate of the message in flight when the device   *)
 (* raises out of a Driver transmit pass (kept or dropped: the answer record says which, the     *)
 (* harness reads it off the queue) are not constrained.                                         *)
+(* A message may be empty: it contributes nothing to the wire and must not hold up the queue -  *)
+(* whatever the device answers to its (zero length) write short of an error, all of its bytes   *)
+(* are sent and it leaves the queue in the pass that reaches it (same reading as TxStream.tla). *)
 (* Bytes are integers; the harness maps them to byte values (0 is the newline of the console).  *)
-EXTENDS Integers, Sequences, TLC
+EXTENDS Integers, Sequences, FiniteSets, TLC
 
 CONSTANTS Subjects,   \* subset of {"console", "device", "serial", "drvdevice", "drvserial"}
           BsSet,      \* read buffer sizes (bs) tried
@@ -180,7 +183,7 @@ WriteOk(m, r) == /\ r.k \in {"full", "part", "zero", "eagain", "error"}
                  /\ r.k = "part" => (r.n > 0 /\ r.n < Len(m))
 
 Send(m, r) ==
-    /\ IsNb /\ opened /\ m # <<>> /\ WriteOk(m, r)
+    /\ IsNb /\ opened /\ WriteOk(m, r)
     /\ wire' = wire \o SubSeq(m, 1, Accepts(m, r))
     /\ res' = IF r.k = "error" THEN Err ELSE IntR(Accepts(m, r))
     /\ act' = Act("Send", m, r.k, r.n, <<>>, FALSE) /\ Same /\ nq' = nq + 1
@@ -188,14 +191,15 @@ Send(m, r) ==
 
 \* put: the documentation promises the write, nothing about its result or about a console that refuses
 Put(m, r) ==
-    /\ IsConsole /\ opened /\ m # <<>> /\ WriteOk(m, r) /\ r.k \in {"full", "part", "zero"}
+    /\ IsConsole /\ opened /\ WriteOk(m, r) /\ r.k \in {"full", "part", "zero"}
     /\ wire' = wire \o SubSeq(m, 1, Accepts(m, r))
     /\ res' = None
     /\ act' = Act("Put", m, r.k, r.n, <<>>, FALSE) /\ Same /\ nq' = nq + 1
     /\ UNCHANGED <<src, ntyped, landed, nread, nopen, opened, txes, rxbs, got>>
 
 (* ---------------- Driver: transmit ---------------- *)
-Queue(m) == /\ IsDriver /\ m # <<>>
+\* (m may be empty)
+Queue(m) == /\ IsDriver
             /\ txes' = Append(txes, m) /\ nq' = nq + 1
             /\ res' = None /\ act' = Act("Queue", m, "", 0, <<>>, FALSE) /\ Same
             /\ UNCHANGED <<src, ntyped, landed, nread, wire, nopen, opened, rxbs, got>>
@@ -209,6 +213,14 @@ Pass(q, s) ==
     ELSE LET r == Head(s)
              m == Head(q)
              last == (Tail(s) = <<>>) IN
+         IF m = <<>> THEN
+             \* an empty message: whatever the device answers short of an error, all (zero) of its bytes are sent and
+             \* the pass goes on with the next message
+             CASE r.k \in {"full", "zero", "eagain"} ->
+                     LET p == Pass(Tail(q), Tail(s)) IN [q |-> p.q, out |-> p.out, err |-> p.err, ok |-> p.ok]
+               [] r.k = "error" -> [q |-> IF r.n = 1 THEN Tail(q) ELSE q, out |-> <<>>, err |-> TRUE, ok |-> last /\ r.n \in {0, 1}]
+               [] OTHER -> [q |-> q, out |-> <<>>, err |-> FALSE, ok |-> FALSE]
+         ELSE
          CASE r.k = "full" ->
                  LET p == Pass(Tail(q), Tail(s)) IN [q |-> p.q, out |-> m \o p.out, err |-> p.err, ok |-> p.ok]
            [] r.k = "part" ->
@@ -298,7 +310,12 @@ NextMsg(n) == [i \in 1..n |-> 10 * (nq + 1) + i]
 Fulls(h) == [i \in 1..h |-> R("full", 0)]
 TxTerminals(m) == {R("zero", 0), R("eagain", 0)} \cup {R("part", h) : h \in 1..(Len(m) - 1)}
 \* (an "error" terminal is left to the recorded executions: see the remark on the message in flight above)
-TxScripts(q) == {Fulls(Len(q))} \cup UNION {{Fulls(h) \o <<t>> : t \in TxTerminals(q[h + 1])} : h \in 0..(Len(q) - 1)}
+RECURSIVE TxScripts(_)
+TxScripts(q) ==
+    IF q = <<>> THEN {<<>>}
+    ELSE IF Head(q) = <<>>
+         THEN {<<a>> \o t : a \in {R("full", 0), R("eagain", 0)}, t \in TxScripts(Tail(q))}
+         ELSE {<<R("full", 0)>> \o t : t \in TxScripts(Tail(q))} \cup {<<t>> : t \in TxTerminals(Head(q))}
 WriteAnswers(m) == {R("full", 0), R("zero", 0), R("eagain", 0), R("error", 0)} \cup {R("part", h) : h \in 1..(Len(m) - 1)}
 ReadKinds == {"data", "eagain", "empty", "error"}
 Now == Len(src)
@@ -313,8 +330,8 @@ Next == \/ \E c \in Alphabet : ntyped < BTyped /\ Type(c)
         \/ \E fl \in Flushes, k \in {"ok", "fail"} : Reopen(fl, k)
         \/ RxSide /\ \E k \in ReadKinds : Receive(k, Now)
         \/ RxSide /\ \E b \in BsSet, k \in ReadKinds : GetLine(b, k, Now)
-        \/ \E n \in 1..BLen : nq < BMsgs /\ \E r \in WriteAnswers(NextMsg(n)) : Send(NextMsg(n), r) \/ Put(NextMsg(n), r)
-        \/ \E n \in 1..BLen : nq < BMsgs /\ Queue(NextMsg(n))
+        \/ \E n \in 0..BLen : nq < BMsgs /\ \E r \in WriteAnswers(NextMsg(n)) : Send(NextMsg(n), r) \/ Put(NextMsg(n), r)
+        \/ \E n \in 0..BLen : nq < BMsgs /\ Queue(NextMsg(n))
         \/ TxSide /\ \E s \in (IF opened THEN TxScripts(txes) ELSE {<<>>}) : ServiceTx(s)
         \/ TxSide /\ \E s \in (IF opened /\ txes # <<>> THEN TxScripts(<<Head(txes)>>) ELSE {<<>>}) : ServiceTxOnce(s)
         \/ RxSide /\ \E k \in {"eagain", "empty", "error", "closed"}, j \in 0..MaxTyped : ServiceRx(k, j, Now)
@@ -339,8 +356,10 @@ WholeLines == (act.a = "GetLine" /\ res.t = "bytes" /\ res.v # <<>>) =>
                   /\ \A i \in 1..(n - 1) : res.v[i] # NL
                   /\ res.v[n] = NL \/ n = act.n
                   /\ \E i \in (nread - n + 1)..landed : src[i] = NL
-\* a partial write never leaves an empty message in the queue
-NoEmptyResidue == \A i \in 1..Len(txes) : txes[i] # <<>>
+\* no pass leaves an empty message behind that was not queued as one (a partial write never leaves an empty residue,
+\* an empty message never stays once a pass reached it)
+Empties(q) == Cardinality({i \in 1..Len(q) : q[i] = <<>>})
+NoEmptyResidue == [][(act'.a # "Queue") => Empties(txes') <= Empties(txes)]_vars
 \* transmit conservation, step by step: what is on the wire followed by what is queued only grows by what was queued
 \* (exception: the message in flight when the device raised)
 TxConserved == [][\/ act'.a = "Queue" /\ wire' \o Flat(txes') = wire \o Flat(txes) \o act'.m
